@@ -19,7 +19,6 @@ import (
 	revocation "github.com/gr33nbl00d/caddy-revocation-validator"
 	"github.com/gr33nbl00d/caddy-revocation-validator/config"
 	"github.com/gr33nbl00d/caddy-revocation-validator/core/verifhook"
-	"github.com/gr33nbl00d/caddy-revocation-validator/crl"
 	"github.com/muesli/cache2go"
 )
 
@@ -332,16 +331,12 @@ func (w *World) Provision() error {
 		exits = w.Hooks.Count("crl.update.exit")
 	}
 	if err := v.Provision(caddy.Context{}); err != nil {
-		// a failed Provision may leave the work dir registered; deregister so the sandbox can be reused
-		if v.CRLConfig != nil {
-			crl.DeregisterCRLWorkDirUsage(v.CRLConfig)
-		}
-		if ch := v.VerifCRLChecker(); ch != nil {
-			func() {
-				defer func() { recover() }()
-				ch.Cleanup()
-			}()
-		}
+		// what Caddy does when provisioning a module fails: "incomplete provisioning could have left state dangling,
+		// so make sure it gets cleaned up" - it calls Cleanup on the module
+		func() {
+			defer func() { recover() }()
+			v.Cleanup()
+		}()
 		return err
 	}
 	w.V = v
